@@ -55,7 +55,11 @@
   Narrowings of `strtol` results: `int length` / `int vibrato_rate` = `i32`; `unsigned default_len`
   = `% 2^32`; `uint8_t` = `u8`.  `strtol` saturates at `LONG_MIN`/`LONG_MAX` (`clampLong`).
   Not modelled: `pcm` instruments (Wave_Bank, property C14) → `Err.unsupported`;
-  `strtod` beyond `[-]digits[.digits]` (no exponent / hex / inf / nan).
+  `strtod` beyond `[-]digits[.digits]` (no exponent / hex / inf / nan): a pitch envelope with a
+  node or vibrato token that holds one of the letters e, x, i, n (any case) is answered
+  `Err.unsupported` as a whole (`outsideStrtod`; conservative: the real `strtod` would read
+  `1e9`, `0x10`, `-inf`, `-nan` there — since 87e2b57 an infinite or NaN step is an InputError,
+  before it was an undefined conversion).
 -/
 import Ctrmml.Generated.Tables
 namespace Ctrmml.MdsData
@@ -657,9 +661,17 @@ def pitchFinishExt (env : NBytes) (lp : Int) : NBytes :=
   if lp == -1 then (env.set (env.length - 2) 0xff).set (env.length - 1) (u8 ((nth env (env.length - 1) : Int) - 1))
   else env.set (env.length - 1) (u8 lp)
 
+/-- a token handed to `add_pitch_node` / `add_pitch_vibrato` on which the real `strtod` may leave
+the grammar `[+-]digits[.digits]` of the `strtod` above: exponent, hexadecimal, `inf`, `nan` -/
+def outsideStrtod (tok : String) : Bool :=
+  match tok.toList with
+  | c :: cs => (isDigit c || c == '-' || c == 'V') && (c :: cs).any fun x => "eExXiInN".toList.contains x
+  | [] => false
+
 def addPitch {α} (A : Arith α) (st : State) (id : Nat) (tag : List String) : Except Err State :=
   -- empty tag: early return, then `dump_data(id, pitch_map[id])` default-creates the entry
   if tag.isEmpty then .ok (if (mget st.pitchMap id).isNone then { st with pitchMap := mset st.pitchMap id 0 } else st) else
+  if tag.any outsideStrtod then .error .unsupported else
   let store (st : State) (env : NBytes) (ext : Bool) : Except Err State :=
     match addUnique st env with
     | .error e => .error e
